@@ -394,6 +394,38 @@ class ApplyMonitors:
                     "shape": who, "version": version, "expected": sim.r3[version]["doc"].to_json(),
                     "got": doc.to_json()})
 
+    def replay_from_zero(self, ev):
+        """a late joiner replays the authority's whole step log (through JSON bytes) on the initial
+        document: every intermediate version must be the one the authority had (R3)"""
+        import json
+
+        sim = self.sim
+        a = sim.auth
+        if "C04" not in self.on or not a.up or not a.version:
+            return "skip"
+        doc = pm.Node.from_json(sim.schema, json.loads(json.dumps(sim.cfg["init_doc"])))
+        sim.in_oracle += 1
+        try:
+            for v in range(a.version):
+                sj = json.loads(json.dumps(a.steps[v].to_json(), ensure_ascii=False))
+                st = pt.Step.from_json(sim.schema, sj)
+                try:
+                    res = st.apply(doc)
+                except ValueError as e:
+                    res = None
+                    err = repr(e)
+                if res is None or res.failed or res.doc is None:
+                    self.violation("C04", "replay.from_zero_failed", {
+                        "shape": core.step_kind(st), "version": v, "step": sj,
+                        "failed": res.failed if res is not None else err})
+                    return "failed"
+                doc = res.doc
+                self.on_recover_version("latejoin", v + 1, doc)
+        finally:
+            sim.in_oracle -= 1
+        self.probes["C04.replays_from_zero"] += 1
+        return "ok:%d" % a.version
+
     def on_journal_replayed(self, client, index, rec, doc):
         sim = self.sim
         if "C04" not in self.on:
